@@ -494,6 +494,12 @@ def path_env(stmts, upto=None):
             env[st.targets[0].id] = path_subst(st.value, env)
         elif isinstance(st, ast.AnnAssign) and isinstance(st.target, ast.Name) and st.value is not None:
             env[st.target.id] = path_subst(st.value, env)
+        elif isinstance(st, ast.Assign) and len(st.targets) == 1 and isinstance(st.targets[0], (ast.Tuple, ast.List)) \
+                and isinstance(st.value, (ast.Tuple, ast.List)) and len(st.targets[0].elts) == len(st.value.elts) \
+                and all(isinstance(t, ast.Name) for t in st.targets[0].elts):
+            vals = [path_subst(v, env) for v in st.value.elts]       # `a, b = x, y`: right-hand sides first, then the bindings
+            for t, v in zip(st.targets[0].elts, vals):
+                env[t.id] = v
         elif isinstance(st, (ast.Assign, ast.AugAssign, ast.AnnAssign, ast.For, ast.AsyncFor, ast.With, ast.AsyncWith)):
             for n in ast.walk(st):
                 if isinstance(n, ast.Name) and isinstance(n.ctx, ast.Store):
